@@ -214,6 +214,50 @@ def long_calls(res, ctx, rng):
             return
 
 
+def correlated_values(res, ctx, rng):
+    """Every decoder once with its free argument and return words set to values that are LIVE KEYS of the stream at that
+    point: the id of a mapped thread that has announced a name, that thread's pid, an announced string id, a looked-up
+    vnode id.  A decoder that starts to act on such a coincidence (a return value that happens to be a known pid ...)
+    still processes the stream to its end."""
+    inv = H.inventory()
+    b, pid, sid, vn = 0x7001, 0x4d2, 0x5151, 0x9a9a
+    prefix = (H.on_thread(0x7000, H.newthread_pair(b, pid, b'childproc')) + H.on_thread(b, H.thread_name(b'worker-thread'))
+              + H.on_thread(b, H.syscall('BSC_getpid', (0, 0, 0, 0), (0, pid, 0, 0)))
+              + H.on_thread(0x7000, H.global_string(sid, b'/usr/lib/libz.dylib') + H.lookup(vn, b'/tmp/correlated')))
+    for i, name in enumerate(inv['decodable']):
+        if not ctx.mine(i) or name in domain.TEXT_PAYLOAD:
+            continue
+        spec = domain.TABLE.get(name, {})
+        for val, what in ((pid, 'the pid of a named, mapped thread'), (b, 'the id of a named, mapped thread'),
+                          (sid, 'an announced string id'), (vn, 'a looked-up vnode id')):
+            for side in ('S', 'E'):
+                start, end = domain.gen_words(rng, name, 'S'), domain.gen_words(rng, name, 'E')
+                if name.startswith('BSC_'):
+                    end[0] = 0
+                words = start if side == 'S' else end
+                for idx in range(4):
+                    if name in ('BSC_setsockopt', 'BSC_getsockopt') and side == 'S' and idx == 2:
+                        continue            # the option word is in-domain only together with the level word
+                    if (side, idx) not in spec and not (side == 'E' and idx == 0 and name.startswith('BSC_')):
+                        words[idx] = val
+                seq = H.syscall(name, start, end)
+                events = H.materialize(prefix + H.on_thread(0x7002, seq) + H.on_thread(b, H.syscall('BSC_getpid', (0, 0, 0, 0), (0, pid, 0, 0))))
+                n_traces, exc, stage = run_history(events)
+                res.count('events_fed', len(events))
+                res.count('traces_rendered', n_traces)
+                res.count('correlated_value_histories')
+                res.case(('correlated', name, side, val))
+                if exc is not None:
+                    where = core.short_tb(exc, 2)
+                    res.violation(f'c07-{core.exc_name(exc)}-{where[-1] if where else "?"}',
+                                  f'{name} whose {"argument" if side == "S" else "return"} words are {what} ({hex(val)}): {exc!r} in '
+                                  f'{stage} at {where}', {'events': [ev.ev_to_case(e) for e in events], 'via_file': False})
+                    break
+            else:
+                continue
+            break
+
+
 def run(ctx):
     res = core.Result()
     import random
@@ -225,6 +269,7 @@ def run(ctx):
             targeted(res, ctx, rng)
         scenario_mixes(res, ctx, rng)
         long_calls(res, ctx, rng)
+        correlated_values(res, ctx, rng)
     res.notes['handler_functions_entered'] = sorted(f'{f}:{n}' for f, n in cov.entered if n.startswith('handle_'))
     if ctx.shard == 0:
         seq = H.path_syscall(core.Ctx('C07', ctx.tier, ctx.seed).rng, 'BSC_rename', 1, error=2)
@@ -238,6 +283,7 @@ def run(ctx):
     res.require('traces_rendered', 10)
     res.require('programs_with_repeated_orphan_end', 5)
     res.require('long_calls', 4)
+    res.require('correlated_value_histories', 3000)
     return res
 
 
